@@ -135,7 +135,7 @@ def gen_vi_prog(rng):
         elif t == 8:
             atoms.append(rng.choice(['d', 'c', 'y', 'g~', 'gu', 'gU']) + cnt + rng.choice(motions) + '\x1b')
         elif t == 9:
-            atoms.append(cnt + 'r' + (ch if ch != '\t' else 'q'))
+            atoms.append(rng.choice([cnt, '4', '5', '9']) + 'r' + (ch if ch != '\t' else 'q'))
         elif t == 10:
             atoms.append(cnt + '~')
         elif t == 11:
@@ -185,7 +185,15 @@ def run_programs(ctx, res):
             r2 = vlib.run_vi(vi, ''.join(case[1]).encode('utf-8') + b'\x1b:w! out\n:q!\n', files={'f': case[0]}, args=['f'], readback=['out'], rows=10, cols=40, timeout=60)
             out = r2.files.get('out')
             if out is None:
-                res.count('programs without a written file (ignored here; C05 covers crashes and hangs)')
+                if r2.rc is not None and r2.rc < 0 and r.rc is not None and r.rc < 0:
+                    # killed by a signal twice: a character-wise command over multi-byte text crashed
+                    # (typically a byte/character mix-up handing a garbage length to memcpy)
+                    atoms = vlib.shrink(case[1], lambda a: (lambda o: o.rc is not None and o.rc < 0)(one(case, a)))
+                    res.violation({'what': 'a character-wise editing program over multi-byte text crashed the editor (signal %d)' % (-r2.rc),
+                                   'input': {'file': case[0].hex(), 'keys': [a.encode('utf-8').hex() for a in atoms], 'window': '10x40'},
+                                   'observed': 'killed by signal %d' % (-r2.rc), 'expected': 'the program runs to :w and :q'})
+                else:
+                    res.count('programs without a written file (ignored here; C05 covers hangs)')
                 continue
         res.nontriv('prog:' + ''.join(case[1]))
         if invalid(out):
